@@ -28,7 +28,7 @@ type entry struct {
 
 type want struct {
 	Name    string `json:"name"`
-	Kind    string `json:"kind"` // reg | sym | bad
+	Kind    string `json:"kind"` // reg | sym | bad | ref (osutil.FileReference) | refmode (FileReferencePlusMode) | refmissing | refdir
 	Content string `json:"content,omitempty"`
 	Mode    uint32 `json:"mode,omitempty"`
 	Target  string `json:"target,omitempty"`
@@ -70,6 +70,7 @@ var targets = []string{"../out/r1", "../out/r2", "../out/d1", "../out/missing", 
 // delegates to the real osutil.MemoryFileState / SymlinkFileState.
 type fstate struct {
 	w     want
+	src   string // ref kinds: the referenced path
 	key   string // what is recorded on the first visit (tree mode: dir + "\x00" + name); default the name
 	calls int
 	visit *[]string
@@ -92,6 +93,10 @@ func (f *fstate) State() (io.ReadCloser, int64, os.FileMode, error) {
 		return (&osutil.MemoryFileState{Content: []byte(f.w.Content), Mode: os.FileMode(f.w.Mode)}).State()
 	case "sym":
 		return osutil.SymlinkFileState{Target: f.w.Target}.State()
+	case "ref", "refmissing", "refdir":
+		return osutil.FileReference{Path: f.src}.State()
+	case "refmode":
+		return osutil.FileReferencePlusMode{FileReference: osutil.FileReference{Path: f.src}, Mode: os.FileMode(f.w.Mode)}.State()
 	}
 	return io.NopCloser(strings.NewReader("")), 0, os.ModeDir | 0755, nil
 }
@@ -190,6 +195,12 @@ func coqWant(w want) string {
 		return "(DReg " + vh.CoqBytes(w.Content) + " " + vh.CoqN(uint64(w.Mode)) + " " + f + ")"
 	case "sym":
 		return "(DSym " + vh.CoqBytes(w.Target) + " " + f + ")"
+	case "ref", "refmode":
+		// a reference to an existing regular file: its content, and its own mode (ref) or the given one (refmode)
+		return "(DReg " + vh.CoqBytes(w.Content) + " " + vh.CoqN(uint64(w.Mode)) + " " + f + ")"
+	case "refmissing", "refdir":
+		// State() of a reference to a missing file / to a directory fails on every call, so on the first
+		return "(DReg " + vh.CoqBytes("") + " 0%N 1%N)"
 	}
 	return "(DBad " + f + ")"
 }
@@ -230,8 +241,20 @@ func exec(i in) vh.Out {
 
 	var visit []string
 	content := map[string]osutil.FileState{}
-	for _, w := range i.Content {
-		content[w.Name] = &fstate{w: w, visit: &visit}
+	srcDir := filepath.Join(top, "src")
+	must(os.Mkdir(srcDir, 0755))
+	for k, w := range i.Content {
+		fs := &fstate{w: w, visit: &visit, src: filepath.Join(srcDir, strconv.Itoa(k))}
+		switch w.Kind {
+		case "ref":
+			must(os.WriteFile(fs.src, []byte(w.Content), 0600))
+			must(os.Chmod(fs.src, os.FileMode(w.Mode)))
+		case "refmode":
+			must(os.WriteFile(fs.src, []byte(w.Content), 0600))
+		case "refdir":
+			must(os.Mkdir(fs.src, 0755))
+		}
+		content[w.Name] = fs
 	}
 	syscall.Umask(i.Umask)
 	var changed, removed []string
@@ -393,6 +416,20 @@ func randSync(r *vh.Rand) in {
 			i.Content = append(i.Content, want{Name: bad, Kind: "reg", Content: "alpha", Mode: 0644})
 		}
 	}
+	for k := range i.Content {
+		if i.Content[k].Kind == "reg" && !strings.Contains(i.Content[k].Name, "/") {
+			switch r.Intn(14) {
+			case 0, 1:
+				i.Content[k].Kind = "ref"
+			case 2:
+				i.Content[k].Kind = "refmode"
+			case 3:
+				if r.Chance(1, 3) {
+					i.Content[k].Kind = r.Pick([]string{"refmissing", "refdir"})
+				}
+			}
+		}
+	}
 	if len(i.Content) > 0 && r.Chance(1, 4) {
 		k := r.Intn(len(i.Content))
 		i.Content[k].FailAt = r.Range(1, 3)
@@ -409,6 +446,10 @@ func enumerate(two bool) []in {
 	wants := []*want{nil, {Kind: "reg", Content: "alpha", Mode: 0644}, {Kind: "reg", Content: "alpha", Mode: 0644, FailAt: 1},
 		{Kind: "reg", Content: "alpha", Mode: 0644, FailAt: 2}, {Kind: "reg", Content: "alpha", Mode: 0644, FailAt: 3},
 		{Kind: "sym", Target: "../out/r1"}, {Kind: "sym", Target: "../out/r1", FailAt: 3}, {Kind: "bad"}}
+	if !two {
+		wants = append(wants, &want{Kind: "ref", Content: "alpha", Mode: 0644}, &want{Kind: "refmode", Content: "alpha", Mode: 0644},
+			&want{Kind: "ref", Content: "alpha", Mode: 0600, FailAt: 2}, &want{Kind: "refmissing"}, &want{Kind: "refdir"})
+	}
 	var out []in
 	mk := func(name string, n *entry, w *want, i *in) {
 		if n != nil {
